@@ -7,7 +7,7 @@ import core, checks, mutants, importlib
 from core import AnalysisBroken
 
 for bid in sys.argv[1:]:
-    m = dict(id="n-" + bid, patch="benign/%s/patch.diff" % bid)
+    m = dict(id="n-" + bid.replace("/", "-"), patch=("%s/patch.diff" % bid) if "/" in bid else "benign/%s/patch.diff" % bid)
     mp = mutants.apply(m)
     if mp is None:
         print("[%s] patch does not apply" % bid)
